@@ -460,7 +460,9 @@ impl Display for StandardLinearModel {
 /// * `value` - Coefficient value
 /// * `is_first` - Whether this is the first term in an expression
 pub fn format_var(name: &str, value: f64, is_first: bool) -> String {
-    let sign = if float_lt(value, 0.0) {
+    //the magnitude below is printed exactly, so the sign has to be exact as well:
+    //a tolerant comparison would print a tiny negative coefficient as positive
+    let sign = if value < 0.0 {
         "- "
     } else if is_first {
         ""
